@@ -131,6 +131,9 @@ def rec_response(ghost, bearer, response):
 
 
 def mtu_update(ghost, mtu):
+    """Bearer.on_att_mtu_update(mtu) sets bearer.att_mtu: the value must keep the type invariant ATT_MTU >= 23 that every
+    other contract of this property relies on (checked at each call)"""
+    assert mtu >= 23
     ghost.mtu_updates = ghost.mtu_updates + 1
 
 
